@@ -65,7 +65,7 @@ Definition ext (s s' : store) : Prop :=
   (forall k id, map_get (smap s') k = Some id -> map_get (smap s) k = Some id) /\
   (forall e', In e' (ents s') -> exists e, In e (ents s) /\ sid e = sid e' /\ sexpire e = sexpire e' /\ sweight e = sweight e') /\
   (NoDup (map fst (smap s)) -> NoDup (map fst (smap s'))) /\
-  scap s' = scap s.
+  scap s' = scap s /\ sec s' = sec s /\ hyb s' = hyb s.
 
 Lemma NoDup_keys_del (m : list (Z * Z)) k : NoDup (map fst m) -> NoDup (map fst (map_del m k)).
 Proof.
@@ -97,7 +97,7 @@ Proof. repeat split; auto. - intros id e H. exists e. auto. - intros e' H. exist
 
 Lemma ext_trans a b c : ext a b -> ext b c -> ext a c.
 Proof.
-  intros (N1 & C1 & E1 & M1 & I1 & D1 & P1) (N2 & C2 & E2 & M2 & I2 & D2 & P2). split; [congruence|]. split; [congruence|]. split; [|split; [|split; [|split; [auto|congruence]]]].
+  intros (N1 & C1 & E1 & M1 & I1 & D1 & P1 & Q1 & Y1) (N2 & C2 & E2 & M2 & I2 & D2 & P2 & Q2 & Y2). split; [congruence|]. split; [congruence|]. split; [|split; [|split; [|split; [auto|split; [congruence|split; congruence]]]]].
   - intros id e H. destruct (E1 id e H) as (e1 & G1 & A1 & B1 & V1).
     destruct (E2 id e1 G1) as (e2 & G2 & A2 & B2 & V2). exists e2. repeat split; congruence.
   - intros k id H. apply M1, M2, H.
@@ -107,7 +107,7 @@ Qed.
 
 Lemma ext_upd s id f : same_kv f -> ext s (upd_ent s id f).
 Proof.
-  intro Hf. split; [reflexivity|]. split; [reflexivity|]. split; [|split; [|split; [|split; [auto|reflexivity]]]].
+  intro Hf. split; [reflexivity|]. split; [reflexivity|]. split; [|split; [|split; [|split; [auto|split; [reflexivity|split; reflexivity]]]]].
   - intros id' e H. rewrite get_ent_upd by (intro; apply Hf). rewrite H.
     destruct (sid e =? id); eexists; split; try reflexivity; try (repeat split; reflexivity).
     destruct (Hf e) as (A & B & C & _). auto.
@@ -117,7 +117,7 @@ Proof.
     destruct (sid e =? id); [destruct (Hf e) as (A & _ & _ & B & C); repeat split; congruence|repeat split; reflexivity].
 Qed.
 
-Ltac ext_field := split; [reflexivity|]; split; [reflexivity|]; split; [intros id0 e0 H0; exists e0; auto|split; [auto|split; [intros e0 H0; exists e0; auto|split; [auto|reflexivity]]]].
+Ltac ext_field := split; [reflexivity|]; split; [reflexivity|]; split; [intros id0 e0 H0; exists e0; auto|split; [auto|split; [intros e0 H0; exists e0; auto|split; [auto|split; [reflexivity|split; reflexivity]]]]].
 Lemma ext_pol s x : ext s (set_pol s x). Proof. ext_field. Qed.
 Lemma ext_whl s x : ext s (set_whl s x). Proof. ext_field. Qed.
 Lemma ext_rbuf s x : ext s (set_rbuf s x). Proof. ext_field. Qed.
@@ -125,11 +125,10 @@ Lemma ext_nowc s x : ext s (set_nowc s x). Proof. ext_field. Qed.
 Lemma ext_counts s h m : ext s (set_counts s h m). Proof. ext_field. Qed.
 Lemma ext_queue s x : ext s (set_queue s x). Proof. ext_field. Qed.
 Lemma ext_hand s x : ext s (set_hand s x). Proof. ext_field. Qed.
-Lemma ext_sec s x : ext s (set_sec s x). Proof. ext_field. Qed.
 Lemma ext_secerrs s x : ext s (set_secerrs s x). Proof. ext_field. Qed.
 Lemma ext_mapdel s k : ext s (set_smap s (map_del (smap s) k)).
 Proof.
-  split; [reflexivity|]. split; [reflexivity|]. split; [intros id0 e0 H0; exists e0; auto|split; [|split; [intros e0 H0; exists e0; auto|split; [|reflexivity]]]].
+  split; [reflexivity|]. split; [reflexivity|]. split; [intros id0 e0 H0; exists e0; auto|split; [|split; [intros e0 H0; exists e0; auto|split; [|split; [reflexivity|split; reflexivity]]]]].
   - intros k' id H. cbn [smap set_smap] in H. eapply map_get_del_sub, H.
   - cbn [smap set_smap]. apply NoDup_keys_del.
 Qed.
@@ -140,7 +139,7 @@ Lemma same_kv_nvm b : same_kv (fun e => e_nvm e b). Proof. intro e. repeat split
 Lemma same_kv_pw w : same_kv (fun e => e_pw e w). Proof. intro e. repeat split. Qed.
 
 Ltac ext_step := first [ apply ext_refl | apply ext_pol | apply ext_whl | apply ext_rbuf | apply ext_nowc
-                       | apply ext_counts | apply ext_queue | apply ext_hand | apply ext_sec | apply ext_secerrs | apply ext_mapdel
+                       | apply ext_counts | apply ext_queue | apply ext_hand | apply ext_secerrs | apply ext_mapdel
                        | apply ext_upd; first [apply same_kv_removed | apply same_kv_deleted | apply same_kv_nvm | apply same_kv_pw] ].
 
 Lemma removeEntry_ext s id reason now : ext s (fst (removeEntry s id reason now)).
@@ -267,7 +266,7 @@ Definition Rinv (s : store) (L : Spec) : Prop :=
 
 Lemma Rinv_ext s s' L : Rinv s L -> ext s s' -> Rinv s' L.
 Proof.
-  intros (R & F & D) (N & C & E & M & I & DD & _). split; [|split; [|auto]].
+  intros (R & F & D) (N & C & E & M & I & DD & _ & _ & _). split; [|split; [|auto]].
   - intros k id H. destruct (R k id (M k id H)) as (e & G & Si & K & V).
     destruct (E id e G) as (e' & G' & S' & K' & V'). exists e'. repeat split; congruence.
   - intros e' H. destruct (I e' H) as (e & He & Se & _). rewrite N, <- Se. apply F, He.
